@@ -39,6 +39,11 @@ pub fn offer(w: &mut World, text: &TextRef, faults_: &[TokFault], reader: Bk, ar
         }
     }
     let changed = d.text != orig;
+    if !faults_.is_empty() && !changed {
+        // the fault does not apply to this text (position beyond its end, same character): nothing was offered
+        w.stats.bump("fault:text:not-applicable");
+        return;
+    }
     // the unvalidated KeyText layer under the key parsers (C04: no operation on a parsed value panics)
     let ktkind = match artifact {
         Artifact::KeyLocal => Some(crate::backend::Kind::Local),
